@@ -680,11 +680,24 @@ func FamilyTamper(r *Runner) {
 			// the objects present after two rounds (and, with lockAhead, a crash
 			// right after the CAS): the targets
 			var keys []string
+			var prepWith func(w *World, a *Inc) (*Inc, []*Entry, error)
 			prep := func(w *World) (*Inc, []*Entry, error) {
 				a, err := Setup(w, base, 0)
 				if err != nil {
 					return nil, nil, err
 				}
+				return prepWith(w, a)
+			}
+			// prepFrom: the same on a world that was set up already (its instance crashed)
+			prepFrom := func(w *World) (*Inc, []*Entry, error) {
+				w.Gate(false)
+				a := w.NewInc("A")
+				if err := a.Load(allFlags); err != nil {
+					return nil, nil, err
+				}
+				return prepWith(w, a)
+			}
+			prepWith = func(w *World, a *Inc) (*Inc, []*Entry, error) {
 				w.Gate(false)
 				for _, e := range newEntries(w, "r1", 2) {
 					a.Submit(e, false)
@@ -739,7 +752,52 @@ func FamilyTamper(r *Runner) {
 					})
 				}
 			}
-			// swaps and roll-backs
+			// the published checkpoint rolled back to an older one the log signed itself
+			// (the only checkpoints an adversary can plant), alone and together with the
+			// loss of every staging bundle, or with a right-edge tile deleted
+			for _, with := range []string{"", "+nobundles", "+noedge"} {
+				r.Scenario(fmt.Sprintf("tamper/b%d/ahead=%v/rollback-checkpoint%s", base, lockAhead, with), false, func(w *World) error {
+					a, err := Setup(w, base, 0)
+					if err != nil {
+						return err
+					}
+					_ = a
+					cp0, ok := w.Object("checkpoint")
+					if !ok {
+						return fmt.Errorf("no checkpoint after setup")
+					}
+					w.Crash(a)
+					_, es, err := prepFrom(w)
+					if err != nil {
+						return err
+					}
+					cp1, _ := w.Object("checkpoint")
+					if bytes.Equal(cp0, cp1) {
+						return fmt.Errorf("checkpoint did not move")
+					}
+					w.Tamper("checkpoint", cp0, "rollback")
+					switch with {
+					case "+nobundles":
+						for _, k := range w.Keys() {
+							if KeyClass(k) == "staging" {
+								w.Tamper(k, nil, "delete")
+							}
+						}
+					case "+noedge":
+						var last string
+						for _, k := range w.Keys() {
+							if KeyClass(k) == "hash" {
+								last = k
+							}
+						}
+						if last != "" {
+							w.Tamper(last, nil, "delete")
+						}
+					}
+					return afterTamper(w, es)
+				})
+			}
+			// swaps
 			r.Scenario(fmt.Sprintf("tamper/b%d/ahead=%v/swap-edge-tiles", base, lockAhead), false, func(w *World) error {
 				_, es, err := prep(w)
 				if err != nil {
